@@ -73,15 +73,15 @@ static unsigned n_in;
 static char in[MAXN + 1], ref[MAXN + 1];
 static unsigned n_ref;
 
-static void pick_input(void)
-{
-    n_in = (unsigned) VND(uchar, len);
-    __CPROVER_assume(n_in <= MAXN);
-    in[0] = (char) VND(char, c0); in[1] = (char) VND(char, c1); in[2] = (char) VND(char, c2); in[3] = (char) VND(char, c3);
-    in[4] = (char) VND(char, c4); in[5] = (char) VND(char, c5); in[6] = (char) VND(char, c6); in[7] = (char) VND(char, c7);
-    for (unsigned i = 0; i < MAXN; i++) __CPROVER_assume(i >= n_in || in[i] != 0);
-    in[n_in] = 0;
-}
+/* inputs are taken with VND in harness() itself (the driver's witness extraction looks there): length and
+ * one named byte per position, so a native replay (-DVERIF_NATIVE) sees the verifier's string */
+#define PICK_INPUT() do { \
+    n_in = (unsigned) VND(uchar, len); \
+    __CPROVER_assume(n_in <= MAXN); \
+    in[0] = (char) VND(char, c0); in[1] = (char) VND(char, c1); in[2] = (char) VND(char, c2); in[3] = (char) VND(char, c3); \
+    in[4] = (char) VND(char, c4); in[5] = (char) VND(char, c5); in[6] = (char) VND(char, c6); in[7] = (char) VND(char, c7); \
+    for (i = 0; i < MAXN; i++) __CPROVER_assume(i >= n_in || in[i] != 0); \
+    in[n_in] = 0; } while (0)
 static int ref_space(char c) { int u = c; if (u < 0) u += 256; return V_ISSPACE(u); }   /* value as unsigned char */
 
 #ifdef U_CHOMP
@@ -116,10 +116,9 @@ static void reference(void)
 }
 #endif
 
-void harness(void)
+static void run_one(void)
 {
     unsigned i;
-    pick_input();
     reference();
 #if defined(U_CHOMP) || defined(U_STRREV)
     {
@@ -154,5 +153,33 @@ void harness(void)
         free(r);
     }
 #endif
+}
+
+void harness(void)
+{
+    unsigned i;
+#ifdef VERIF_NATIVE
+    if (!getenv("W_len")) {
+        /* replay without a witness (the driver cannot fetch one when the first failing obligation is an
+         * unwinding assertion): try every length with three fixed fillings instead of giving up */
+        static const char fillc[3][4] = { { 'a', 'b', 'c', 'd' }, { ' ', 'x', '\t', ' ' }, { ' ', ' ', (char) 0xa0, 'y' } };
+        unsigned f;
+        for (f = 0; f < 3; f++)
+            for (n_in = 0; n_in <= MAXN; n_in++) {
+# if defined(U_CONDENSE) && defined(U_NONEMPTY)
+                if (n_in == 0) continue;
+# endif
+# if defined(U_CONDENSE) && defined(U_EMPTY)
+                if (n_in != 0) continue;
+# endif
+                for (i = 0; i < n_in; i++) in[i] = fillc[f][(i + n_in) % 4];
+                in[n_in] = 0;
+                run_one();
+            }
+        return;
+    }
+#endif
+    PICK_INPUT();
+    run_one();
     VERIF_CANARY();
 }
